@@ -105,7 +105,7 @@ impl ZoneStore {
         trace!("store resolve");
 
         // Check cache first (short lock scope)
-        {
+        let generation = {
             let mut cache = self.cache.lock().await;
             if let Some(rset) = cache.resolve(pubkey, name, record_type) {
                 debug!(
@@ -114,7 +114,8 @@ impl ZoneStore {
                 );
                 return Ok(Some(rset));
             }
-        }
+            cache.generation
+        };
 
         // Check persistent store
         #[cfg(iroh_verif)]
@@ -124,7 +125,15 @@ impl ZoneStore {
             #[cfg(iroh_verif)]
             crate::verif_hooks::pause("dnssrv.resolve.got", name).await;
             let mut cache = self.cache.lock().await;
-            let result = cache.insert_and_resolve(&packet, name, record_type);
+            let result = if cache.generation == generation {
+                cache.insert_and_resolve(&packet, name, record_type)
+            } else {
+                // A publish invalidated the cache while we were reading the store, so
+                // `packet` may already be outdated: answer from it, but do not cache it.
+                CachedZone::from_signed_packet(&packet)
+                    .anyerr()
+                    .map(|zone| zone.resolve(name, record_type))
+            };
             return match result {
                 Ok(Some(rset)) => {
                     debug!(
@@ -241,6 +250,9 @@ struct ZoneCache {
     dht_cache: TtlCache<PublicKeyBytes, CachedZone>,
     #[debug("metrics")]
     metrics: Arc<Metrics>,
+    /// Incremented on every invalidation, so that a lookup can tell whether the packet it
+    /// read from the store may have been replaced in the meantime.
+    generation: u64,
 }
 
 impl ZoneCache {
@@ -251,6 +263,7 @@ impl ZoneCache {
             cache,
             dht_cache,
             metrics,
+            generation: 0,
         }
     }
 
@@ -320,6 +333,7 @@ impl ZoneCache {
     }
 
     fn remove(&mut self, pubkey: &PublicKeyBytes) {
+        self.generation = self.generation.wrapping_add(1);
         self.cache.pop(pubkey);
         self.dht_cache.remove(pubkey);
         self.metrics.cache_zones.set(self.cache.len() as i64);
